@@ -10,6 +10,7 @@
 //     multisets (monitor: any difference => c.Fail with a key per class + layout + SQL);
 //   - prints the real ExtractTimeRange result, the real read plan (the read_parquet path list of the transformed
 //     SQL) and both row counts; the Lean driver prints the same from the model (correspondence).
+//
 // NOW()/CURRENT_TIMESTAMP: the pruner reads the virtual clock (clockify); in the transformed SQL the harness
 // replaces them by the same instant as a TIMESTAMPTZ literal so that DuckDB and the pruner agree on "now".
 package main
@@ -51,12 +52,12 @@ func must(err error) {
 // ---------------------------------------------------------------- AST of generated predicates
 
 type lit struct {
-	fmt                   int
-	y, mo, d, hh, mi, ss  int
-	frac                  int64 // ns
-	off                   int   // seconds east
-	inst                  int64 // instant the pruner is expected to read (labelling only)
-	goOK                  bool
+	fmt                  int
+	y, mo, d, hh, mi, ss int
+	frac                 int64 // ns
+	off                  int   // seconds east
+	inst                 int64 // instant the pruner is expected to read (labelling only)
+	goOK                 bool
 }
 
 type rhs struct {
@@ -259,9 +260,9 @@ func (st *style) pred(p *pred, top bool) string {
 // ---------------------------------------------------------------- environment
 
 type row struct {
-	rid            int64
-	t, c1, c2      int64 // µs
-	v              int64
+	rid       int64
+	t, c1, c2 int64 // µs
+	v         int64
 }
 
 type file struct {
@@ -273,25 +274,25 @@ type file struct {
 }
 
 type env struct {
-	c      *vh.Ctx
-	r      *vh.Rand
-	root   string
-	db     *database.DuckDB
-	sqldb  *sql.DB
-	qhOn   *api.QueryHandler
-	qhOff  *api.QueryHandler
-	pr     *pruning.PartitionPruner
-	now    int64
-	dbName string
-	caseNo int
-	seq    int
-	files  []file
-	rid    int64
-	qid    int
-	newPartSinceQ bool
-	garbage       bool
-	sqlLog        *os.File
-	tCopy, tXform, tRun time.Duration
+	c                        *vh.Ctx
+	r                        *vh.Rand
+	root                     string
+	db                       *database.DuckDB
+	sqldb                    *sql.DB
+	qhOn                     *api.QueryHandler
+	qhOff                    *api.QueryHandler
+	pr                       *pruning.PartitionPruner
+	now                      int64
+	dbName                   string
+	caseNo                   int
+	seq                      int
+	files                    []file
+	rid                      int64
+	qid                      int
+	newPartSinceQ            bool
+	garbage                  bool
+	sqlLog                   *os.File
+	tCopy, tXform, tRun      time.Duration
 	minDate, defStart, soAdd int64
 }
 
@@ -992,12 +993,12 @@ func (e *env) randomLayout() scen {
 // ---------------------------------------------------------------- edge grid (one recipe per class)
 
 func A(col byte, op string, r rhs) *pred { return &pred{kind: 'A', a: batom{col: col, op: op, r: r}} }
-func And(p, q *pred) *pred              { return &pred{kind: '&', p: p, q: q} }
-func Or(p, q *pred) *pred               { return &pred{kind: '|', p: p, q: q} }
-func Not(p *pred) *pred                 { return &pred{kind: '!', p: p} }
+func And(p, q *pred) *pred               { return &pred{kind: '&', p: p, q: q} }
+func Or(p, q *pred) *pred                { return &pred{kind: '|', p: p, q: q} }
+func Not(p *pred) *pred                  { return &pred{kind: '!', p: p} }
 
 func (e *env) L(s string, f int) rhs { return rhs{kind: 'L', l: e.mkLit(ts(s), f, 7200)} }
-func num(k int64) rhs                 { return rhs{kind: 'N', k: k} }
+func num(k int64) rhs                { return rhs{kind: 'N', k: k} }
 
 func (e *env) rowAt(s string, v int64) row {
 	e.rid++
